@@ -773,6 +773,11 @@ func (vfs *MemFS) RemoveAll(path string) error {
 	parent.mu.Lock()
 	defer parent.mu.Unlock()
 
+	if parent.children[pi.Part()] != child {
+		// path has been removed or replaced since the search.
+		return nil
+	}
+
 	if c, ok := child.(*dirNode); ok && len(c.children) != 0 {
 		err = vfs.removeAll(c)
 		if err != nil {
